@@ -106,6 +106,7 @@ func newCliProject() (*cliProject, func()) {
 		vfs.AddDir(p.root + "/sub")
 		vfs.Home = p.home
 		vfs.Env = []string{"PATH=/bin", "HOME=" + p.home}
+		os.Stdin, os.Stdout, os.Stderr = vfs.StdStreams()
 		return p, func() {}
 	}
 	dir, err := os.MkdirTemp("", "gosym-cli-")
@@ -139,8 +140,13 @@ func cmdText(name string, status int) string {
 	if sym.Symbolic() {
 		return name
 	}
-	return "echo out:" + name + "; echo err:" + name + " >&2; exit " + strconv.Itoa(status)
+	return "echo 'out 100% of " + name + "'; echo 'err 5%s " + name + "' >&2; exit " + strconv.Itoa(status)
 }
+
+// What a command prints: the markers carry '%' (text that must never be taken for a format
+// string: a seeded change printed the JSON report with Fprintf(text), DESIGN.md 9.5).
+func outMark(name string) string { return "out 100% of " + name + "\n" }
+func errMark(name string) string { return "err 5%s " + name + "\n" }
 
 type cmdSpec struct {
 	task, name string
@@ -150,8 +156,11 @@ type cmdSpec struct {
 // captureStdout runs f with the process's standard output captured (native replay only).
 func captureStdout(f func()) string {
 	if sym.Symbolic() {
+		// what reaches the process's standard output: through fmt.Print* (the engine's capture)
+		// and through writes to os.Stdout (a file of the model); this call's share of both
+		a, b := len(sym.Stdout()), len(vfs.StdoutText())
 		f()
-		return sym.Stdout()
+		return sym.Stdout()[a:] + vfs.StdoutText()[b:]
 	}
 	r, w, err := os.Pipe()
 	if err != nil {
@@ -189,7 +198,7 @@ func CliRepeat() {
 	p.chdir(p.root)
 	if sym.Symbolic() {
 		stubs.ShellHook = func(cmd string, env expand.Environ) (string, string, int) {
-			return "out:" + cmd + "\n", "err:" + cmd + "\n", 0
+			return outMark(cmd), errMark(cmd), 0
 		}
 	}
 	edit := sym.Bool("edit_between_runs")
@@ -198,7 +207,7 @@ func CliRepeat() {
 			p.put("proj/data.txt", "changed")
 		}
 		if sym.Symbolic() {
-			stubs.JSONValues = nil
+			stubs.JSONValues, stubs.JSONTexts = nil, nil
 		}
 		a := app.New(iostream.IOStream{Stdout: &bytes.Buffer{}, Stderr: &bytes.Buffer{}})
 		a.Options.JSON = true
@@ -252,7 +261,7 @@ func CliRepeat() {
 			sym.Assert(ok, "C20/json-report-wrong")
 			if ok {
 				c := got[0].Results[0]
-				sym.Assert(c.Cmd == cmdText("cmdP", 0) && c.Stdout == "out:cmdP\n" && c.Stderr == "err:cmdP\n" && c.Status == 0, "C20/json-report-wrong")
+				sym.Assert(c.Cmd == cmdText("cmdP", 0) && c.Stdout == outMark("cmdP") && c.Stderr == errMark("cmdP") && c.Status == 0, "C20/json-report-wrong")
 			}
 			sym.Observe("skipped-entry-commands", len(got[1].Results))
 			sym.Assert(got[1].Task == "a" && got[1].Skipped, "C20/skipped-task-missing-from-or-wrong-in-the-report")
@@ -331,7 +340,7 @@ func Cli() {
 		stubs.ShellHook = func(cmd string, env expand.Environ) (string, string, int) {
 			for _, s := range specs {
 				if s.name == cmd {
-					return "out:" + cmd + "\n", "err:" + cmd + "\n", s.status
+					return outMark(cmd), errMark(cmd), s.status
 				}
 			}
 			return "", "", 0
@@ -601,7 +610,8 @@ func checkJSON(procOut string, ran []cmdSpec) {
 			sym.Violation("C20/json-report-wrong", "not exactly one document")
 			return
 		}
-		sym.Assert(strings.Count(procOut, "\n") == 1 && strings.HasPrefix(procOut, "\x01JSONVAL#"), "C20/json-report-wrong")
+		// exactly the encoder's text and a line feed reach standard output
+		sym.Assert(len(stubs.JSONTexts) == 1 && procOut == stubs.JSONTexts[0]+"\n", "C20/json-report-wrong")
 		res, ok := stubs.JSONValues[0].(task.Results)
 		if !ok {
 			sym.Violation("C20/json-report-wrong", "not the results")
@@ -654,8 +664,8 @@ func checkJSON(procOut string, ran []cmdSpec) {
 		}
 		for i, c := range t.Results {
 			sym.Assert(c.Cmd == cmdText(want[i].name, want[i].status), "C20/json-report-wrong")
-			sym.Assert(c.Stdout == "out:"+want[i].name+"\n", "C20/json-report-wrong")
-			sym.Assert(c.Stderr == "err:"+want[i].name+"\n", "C20/json-report-wrong")
+			sym.Assert(c.Stdout == outMark(want[i].name), "C20/json-report-wrong")
+			sym.Assert(c.Stderr == errMark(want[i].name), "C20/json-report-wrong")
 			sym.Assert(c.Status == want[i].status, "C20/json-report-wrong")
 		}
 	}
